@@ -18,7 +18,7 @@ EXPLANATION = (
     "formulas - satisfies(f) equal the value the independent reference semantics gives the skeleton under the "
     "model.  With an empty model and completion the value is the one under the documented defaults (false, 0, "
     "zero bit-vector); without completion the call raises or returns a value that holds under every "
-    "completion (R5).  The exactness of each constant fold is decided operator by operator by C01.")
+    "completion (R5).  The exactness of each constant fold is decided operator by operator by C01.  String skeletons and reals that differ by less than a double can tell are decided with concrete models over small domains, all models of one skeleton in ONE interpretation (a value cached across models would show).")
 NOT_DECIDED = ["skeletons outside the menu; strings and arrays in models (their folds are decided by C01 only)"]
 
 
